@@ -172,4 +172,51 @@ def AForest.write (a : Nat) (l : Nat) : AForest → AForest
 def AForest.writes (ws : List (Nat × Nat)) (t : AForest) : AForest :=
   ws.foldl (fun t w => t.write w.1 w.2) t
 
+/-! ### lock-level LTS of `pgutil.InMemoryKindMapper` (AssertKinds / Put)
+
+Atomic actions = critical sections as extracted into the lock table: `mapKinds` (one RLock section: which of the
+requested kinds are missing — a snapshot) and `Put` (one Lock section: look the kind up and, only if it is absent,
+allocate `nextKindID`). `AssertKinds(ks)` = `mapKinds(ks)` followed by `Put(k)` for every kind of the snapshot, with
+arbitrary actions of other goroutines in between. `checked = false` is the variant whose allocating section does not
+re-check (what a refactoring into "one big write lock + unconditional put" gives). Kinds and ids are `Nat`. -/
+
+structure KM where
+  table : List (Nat × Nat)     -- KindToID (IDToKind is written together with it and is its inverse)
+  next : Nat                   -- nextKindID
+deriving Repr, DecidableEq
+
+def KM.new : KM := ⟨[], 1⟩
+
+def KM.has (g : KM) (k : Nat) : Bool := g.table.any (fun p => p.1 == k)
+
+/-- the allocating critical section -/
+def KM.put (checked : Bool) (g : KM) (k : Nat) : KM :=
+  if checked && g.has k then g else ⟨(k, g.next) :: g.table, g.next + 1⟩
+
+/-- program counter of one goroutine running AssertKinds(ks) -/
+inductive KMPC where
+  | start (ks : List Nat)
+  | putting (ks : List Nat) (todo : List Nat)
+  | done (ks : List Nat)
+deriving Repr, DecidableEq
+
+def kmStepT (checked : Bool) (g : KM) : KMPC → KM × KMPC
+  | .start ks => (g, .putting ks (ks.filter (fun k => !g.has k)))
+  | .putting ks (k :: t) => (g.put checked k, .putting ks t)
+  | .putting ks [] => (g, .done ks)
+  | .done ks => (g, .done ks)
+
+structure KMState where
+  g : KM
+  pcs : List KMPC
+
+/-- goroutine `i` performs its next atomic action -/
+def kmStep (checked : Bool) (s : KMState) (i : Nat) : KMState :=
+  match s.pcs[i]? with
+  | none => s
+  | some pc => ⟨(kmStepT checked s.g pc).1, s.pcs.set i (kmStepT checked s.g pc).2⟩
+
+/-- a schedule is any sequence of goroutine indices -/
+def kmRun (checked : Bool) (s : KMState) (sched : List Nat) : KMState := sched.foldl (kmStep checked) s
+
 end Dawgs.C05
